@@ -2545,14 +2545,17 @@ impl VmGreenThread {
 
     // TODO: this is not very incremental.
     fn start_mark_phase(&mut self) {
-        // mark roots gray
+        self.mark_roots();
+        self.gc_state = GcState::Marking;
+    }
+
+    // mark roots gray
+    fn mark_roots(&mut self) {
         for v in self.value_stack.iter() {
             Self::mark(v, &mut self.gray_stack, self.gc_visited);
         }
         Self::mark(&self.string_operand1, &mut self.gray_stack, self.gc_visited);
         Self::mark(&self.string_operand2, &mut self.gray_stack, self.gc_visited);
-
-        self.gc_state = GcState::Marking;
     }
 
     fn mark(v: &Value, gray_stack: &mut Vec<*mut ObjectHeader>, gc_visited: bool) {
@@ -2622,7 +2625,14 @@ impl VmGreenThread {
             }
         }
         if self.gray_stack.is_empty() {
-            self.gc_state = GcState::Sweeping { index: 0 };
+            // Stack slots and the string operands are written without a barrier, so the
+            // program may have moved the only reference to a white object into a root since
+            // the roots were scanned (e.g. by popping it off a gray array). Look at the roots
+            // again and only start sweeping if that turns up nothing new.
+            self.mark_roots();
+            if self.gray_stack.is_empty() {
+                self.gc_state = GcState::Sweeping { index: 0 };
+            }
         }
     }
 
